@@ -22,19 +22,32 @@ _hook = None      # in-process observer: callable(kind, path, detail), set by th
 
 
 def _op(kind, path, detail=""):
+    """Observer hook: in-process callback, and/or the cross-process persistence log (vh_fs)."""
     global _count
     if _hook is not None:
         _hook(kind, path, detail)
-    log = os.environ.get("EXECUTORLIB_VERIF_FSLOG")
-    kill = os.environ.get("EXECUTORLIB_VERIF_KILL")
-    if log is None and kill is None:
-        return
-    _count += 1
-    if log:
-        with open(log, "a") as fh:
-            fh.write(f"{os.getpid()} {_count} {kind} {os.path.basename(path)} {detail}\n")
-    if kill is not None and kill != "" and _count == int(kill):
-        os._exit(137)
+    if os.environ.get("EXECUTORLIB_VERIF_FSLOG"):
+        import vh_fs
+
+        vh_fs.write("h5_" + kind, file=os.path.basename(path), detail=detail)
+
+
+class _Locked:
+    """All reads and writes of the stand-in are atomic with respect to the persistence log."""
+
+    def __enter__(self):
+        self._l = None
+        if os.environ.get("EXECUTORLIB_VERIF_FSLOG"):
+            import vh_fs
+
+            self._l = vh_fs.locked()
+            self._l.__enter__()
+        return self
+
+    def __exit__(self, *exc):
+        if self._l is not None:
+            self._l.__exit__(*exc)
+        return False
 
 
 def _read(path):
@@ -75,15 +88,18 @@ class File:
         self._name = name
         self._mode = mode
         if mode == "r":
-            if not os.path.exists(name):
-                raise FileNotFoundError(f"Unable to open file (unable to open file: name = '{name}')")
-            _op("open_r", name)
+            with _Locked():
+                if not os.path.isfile(name):
+                    _op("open_r_missing", name)
+                    raise FileNotFoundError(f"Unable to open file (unable to open file: name = '{name}')")
+                _op("open_r", name)
         elif mode == "a":
-            existed = os.path.exists(name)
-            if not existed:
-                with open(name, "ab"):
-                    pass
-            _op("open_a", name, "existed" if existed else "created")
+            with _Locked():
+                existed = os.path.isfile(name)
+                if not existed:
+                    with open(name, "ab"):
+                        pass
+                _op("open_a", name, "existed" if existed else "created")
         else:
             raise ValueError("stand-in h5py supports modes 'r' and 'a' only")
 
@@ -96,24 +112,31 @@ class File:
 
     def close(self):
         if self._mode == "a":
-            _op("close", self._name)
+            with _Locked():
+                _op("close", self._name)
 
     def create_dataset(self, name, data=None):
         if self._mode != "a":
             raise ValueError("Unable to create dataset (no write intent on file)")
         n = _norm(name)
-        if any(k == n for k, _ in _read(self._name)):
-            raise ValueError("Unable to create dataset (name already exists)")
-        raw = data.tobytes() if hasattr(data, "tobytes") else bytes(data)
-        nb = n.encode()
-        rec = struct.pack("<II", len(nb), len(raw)) + nb + raw
-        with open(self._name, "ab") as fh:
-            fh.write(rec)
-        _op("create_dataset", self._name, n)
+        with _Locked():
+            if any(k == n for k, _ in _read(self._name)):
+                _op("create_dataset_exists", self._name, n)
+                raise ValueError("Unable to create dataset (name already exists)")
+            raw = data.tobytes() if hasattr(data, "tobytes") else bytes(data)
+            nb = n.encode()
+            rec = struct.pack("<II", len(nb), len(raw)) + nb + raw
+            with open(self._name, "ab") as fh:
+                fh.write(rec)
+            _op("create_dataset", self._name, n)
 
     def __contains__(self, name):
         n = _norm(name)
-        return any(k == n for k, _ in _read(self._name))
+        with _Locked():
+            r = any(k == n for k, _ in _read(self._name))
+            if n == "output" and r:
+                _op("has_output", self._name, str(r))
+            return r
 
     def __getitem__(self, name):
         n = _norm(name)
